@@ -23,6 +23,7 @@ import threading
 
 from stevedore import extension
 
+from orquesta import exceptions as exc
 from orquesta.utils import expression as expr_util
 from orquesta.utils import plugin as plugin_util
 
@@ -132,7 +133,24 @@ def validate(statement):
 
 def evaluate(statement, data=None):
     if isinstance(statement, dict):
-        return {evaluate(k, data=data): evaluate(v, data=data) for k, v in statement.items()}
+        result = {}
+
+        for k, v in statement.items():
+            key = evaluate(k, data=data)
+
+            # The key may be an expression that evaluates to a value, such as
+            # a list or a dict, which cannot be used as a dictionary key.
+            try:
+                hash(key)
+            except TypeError:
+                raise exc.ExpressionEvaluationException(
+                    "Unable to use the value of type '%s' evaluated from '%s' as a dictionary key."
+                    % (type(key).__name__, k)
+                )
+
+            result[key] = evaluate(v, data=data)
+
+        return result
 
     elif isinstance(statement, list):
         return [evaluate(item, data=data) for item in statement]
